@@ -319,6 +319,95 @@ def cart_oracle(ctx, g, sym, rot, through, i, j, eq):
                  observed=bool(g.locatorInDomain(g[i, j, 0])))
 
 
+# ------------------------------------------------------------------------------------------ symmetry reassigned
+HEX_SYMS = [("third periodic", 1), ("full", 0), ("quarter reflective", 2)]
+
+
+def _hex_answers(g, i, j):
+    loc = g[i, j, 0]
+    try:
+        eq = pairs([tuple(int(v) for v in e[:2]) for e in g.getSymmetricEquivalents((i, j, 0))])
+    except NotImplementedError:
+        eq = "reject"
+    return eq, "T" if g.locatorInDomain(loc, symmetryOverlap=False) else "F", "T" if g.locatorInDomain(loc, symmetryOverlap=True) else "F"
+
+
+def _cart_answers(g, i, j):
+    try:
+        eq = pairs([tuple(int(v) for v in e) for e in g.getSymmetricEquivalents((i, j, 0))])
+    except NotImplementedError:
+        eq = "reject"
+    return eq, "T" if g.locatorInDomain(g[i, j, 0]) else "F"
+
+
+def run_symmetry_sequences(ctx):
+    """query - reassign grid.symmetry - query again, on ONE grid object: every answer must reflect the CURRENT
+    symmetry (as core.symmetry = ... and the geometry converters change it on a live core grid)."""
+    from armi.reactor import geometry, grids
+
+    N = ctx.pick(40, 150)
+    cells = hex_cells(N)
+    req, impl, cases = [], [], []
+    nq = 0
+    for cu in (False, True):
+        live = grids.HexGrid.fromPitch(1.0, numRings=0, cornersUp=cu, symmetry="third periodic")
+        fresh = {sym: grids.HexGrid.fromPitch(1.0, numRings=0, cornersUp=cu, symmetry=sym) for sym, _c in HEX_SYMS}
+        for n, (i, j) in enumerate(cells):
+            order = [HEX_SYMS[n % 2], HEX_SYMS[(n + 1) % 2]]            # third <-> full, alternating start
+            if n % 11 == 0:
+                order.append(HEX_SYMS[2])
+                order.append(HEX_SYMS[n % 2])
+            for step, (sym, code) in enumerate(order):
+                # as a string, or as a SymmetryType object (what Core.symmetry hands to its grid)
+                live.symmetry = sym if (n + step) % 3 else geometry.SymmetryType.fromStr(sym)
+                got = _hex_answers(live, i, j)
+                want = _hex_answers(fresh[sym], i, j)
+                nq += 1
+                if got != want:
+                    ctx.fail("symmetry-reassigned-stale-answer", "after grid.symmetry = s the equivalents / domain answers are "
+                             "those of a grid built with s", {"grid": "hex", "cornersUp": cu, "i": i, "j": j,
+                             "sequence": [o[0] for o in order[: step + 1]]}, observed=list(got), expected=list(want))
+                third = "T" if sym.startswith("third") else "F"
+                req += [f"hexequiv {code} {i} {j}", f"indomain {third} F {i} {j}", f"indomain {third} T {i} {j}"]
+                impl += list(got)
+                cases += [("symseq-hexequiv", cu, sym, i, j), ("symseq-indomain", cu, sym, False, i, j), ("symseq-indomain", cu, sym, True, i, j)]
+        ctx.case(("symseq-hex", cu))
+    model = lean_run("Hex", req)
+    ctx.compare("Model/Hex.lean equivalents/domain after symmetry reassignment vs HexGrid", cases, model, impl)
+    ctx.evaluations += len(req)
+
+    M = ctx.pick(12, 30)
+    req, impl, cases = [], [], []
+    for isOffset in (False, True):
+        live = grids.CartesianGrid.fromRectangle(1.0, 1.0, numRings=1, symmetry="full", isOffset=isOffset)
+        variants = [v for v in CART_VARIANTS if v[1] == isOffset or v[2] != 0]
+        fresh = {v[0]: grids.CartesianGrid.fromRectangle(1.0, 1.0, numRings=1, symmetry=v[0], isOffset=isOffset) for v in CART_VARIANTS}
+        n = 0
+        for i in range(-M, M + 1):
+            for j in range(-M, M + 1):
+                n += 1
+                order = [CART_VARIANTS[n % len(CART_VARIANTS)], CART_VARIANTS[(n * 3 + 1) % len(CART_VARIANTS)],
+                         CART_VARIANTS[(n + 4) % len(CART_VARIANTS)]]
+                for step, (sym, _off, dom, rot, through) in enumerate(order):
+                    live.symmetry = sym if (n + step) % 3 else geometry.SymmetryType.fromStr(sym)
+                    got = _cart_answers(live, i, j)
+                    want = _cart_answers(fresh[sym], i, j)
+                    nq += 1
+                    if got != want:
+                        ctx.fail("symmetry-reassigned-stale-answer", "after grid.symmetry = s the equivalents / domain answers "
+                                 "are those of a grid built with s", {"grid": "cartesian", "isOffset": isOffset, "i": i, "j": j,
+                                 "sequence": [o[0] for o in order[: step + 1]]}, observed=list(got), expected=list(want))
+                    req += [f"cartequiv {dom} {'T' if rot else 'F'} {'T' if through else 'F'} {i} {j}",
+                            f"cartindomain {'T' if dom == 1 else 'F'} {i} {j}"]
+                    impl += list(got)
+                    cases += [("symseq-cartequiv", isOffset, sym, i, j), ("symseq-cartindomain", isOffset, sym, i, j)]
+        ctx.case(("symseq-cart", isOffset))
+    model = lean_run("Grid", req)
+    ctx.compare("Model/Grid.lean equivalents/domain after symmetry reassignment vs CartesianGrid", cases, model, impl)
+    ctx.evaluations += len(req)
+    ctx.count("queries after a symmetry reassignment", nq)
+
+
 # ------------------------------------------------------------------------------------------ pivot
 def run_pivot(ctx):
     from armi.utils import iterables
@@ -643,12 +732,14 @@ def run_blocks(ctx):
 def run(ctx):
     N = run_hex(ctx)
     M = run_cart(ctx)
+    run_symmetry_sequences(ctx)
     run_pivot(ctx)
     run_blocks(ctx)
     ctx.exhaustive = True
     ctx.rule = (f"exhaustive: every hex cell within {N} rings x k in -14..14 x both orientations (rotateIndex), every such "
                 f"cell for third-core equivalents / first third / line class, every cell number x orientation for "
-                f"getIndexOfRotatedCell; every Cartesian cell |i|,|j| <= {M} x 8 symmetry variants; pivot on lists/arrays "
+                f"getIndexOfRotatedCell; every Cartesian cell |i|,|j| <= {M} x 8 symmetry variants; query / reassign grid.symmetry / "
+                f"query sequences on one live hex (every cell) and Cartesian grid object; pivot on lists/arrays "
                 "of length 0..12 x all positions; real fuel HexBlocks (deep copies, every locator kind, random dyadic "
                 "corner/edge vectors and displacement) x every k, plus a second rotation (composition); one real "
                 "HexAssembly x every k. distinct = distinct cells / (block, variant, k); each compared with the model "
@@ -705,6 +796,10 @@ def search(ctx, disagreements, broken):
                     for j in range(int(c[-1]) - 2, int(c[-1]) + 3):
                         eq = [tuple(int(v) for v in e) for e in g.getSymmetricEquivalents((i, j, 0))]
                         cart_oracle(sub, g, sym, rot, through, i, j, eq)
+        elif isinstance(c, (list, tuple)) and c and str(c[0]).startswith("symseq"):
+            if "symseq" not in done:
+                done.add("symseq")
+                run_symmetry_sequences(sub)
         elif isinstance(c, (list, tuple)) and c and c[0] == "pivot":
             run_pivot(sub)
         elif isinstance(c, (list, tuple)) and c and c[0] == "rotcell":
@@ -726,6 +821,8 @@ def replay(ctx, payload):
     sub = type(ctx)(ctx.prop, "quick", int(payload.get("seed", 0)))
     if key.startswith("hexblock") or key.startswith("hexassembly"):
         run_blocks(sub)
+    elif key.startswith("symmetry-reassigned"):
+        run_symmetry_sequences(sub)
     elif key.startswith("cart"):
         run_cart(sub)
     elif key.startswith("pivot"):
